@@ -83,6 +83,7 @@ def checkPar : Rd Verdict := do
   let thr := bitsToFloat thrB
   let A ← rdCsr
   let sents ← rdVec; let states ← rdVec; let pents ← rdVec
+  let pents0 ← rdVec
   let pdims ← (List.range np).mapM fun _ => do let a ← rdInt; let b ← rdInt; let c ← rdInt; let d ← rdInt; pure (a, b, c, d)
   let Pseq ← rdCsr
   let base := s!"C12/par/{interpName interp}" ++ (if tap != 0 then "/tap" else "") ++ (if nv > 1 then "/multivar" else "") ++ (if thr != 0 then "/truncated" else "")
@@ -120,8 +121,19 @@ def checkPar : Rd Verdict := do
     ((A.getD i []).map (·.1)).all (fun j => isC states j || isF states j) &&
     (strong.filter (isF states)).all (fun k => ((A.getD k []).map (·.1)).all fun c => isC states c || isF states c) &&
     (interp != 2 || (strong.filter (isF states)).all fun k => ((S.getD k []).map (·.1)).all fun c => isC states c || isF states c)
-  -- truncation of small weights exists only in the distributed routine: compared when it is switched off
-  if thr != 0 then return ok (feats ++ ["truncated"])
+  -- truncation of small weights exists only in the distributed routine: the truncated operator must be the untruncated
+  -- one with the entries below thr * (largest magnitude of the row) removed and the others rescaled to the old row sum
+  if thr != 0 then
+    let pe0 := trip pents0
+    let P0 : FRows := (List.range n).map fun (i : Nat) => (pe0.filter fun e => e.1 == Int.ofNat i).map fun e => (colToNew states e.2.1.toNat, e.2.2)
+    let truncRow (row : List (Nat × Float)) : List (Nat × Float) :=
+      let mx := (row.foldl (fun m e => if e.2.abs > m then e.2.abs else m) 0) * thr
+      let kept := row.filter fun e => e.2.abs ≥ mx
+      let sAll := row.foldl (fun a e => a + e.2) 0; let sKept := kept.foldl (fun a e => a + e.2) 0
+      if sKept.abs > 1e-16 && (sAll - sKept).abs > 1e-16 then kept.map fun e => (e.1, e.2 * (sAll / sKept)) else kept
+    if !closeRows (canon (P0.map truncRow)) (canon P) then
+      return specFail (base ++ "/spec/truncation") s!"truncated={repr (canon P)} definition applied to the untruncated operator={repr (canon (P0.map truncRow))}" feats
+    return ok (feats ++ ["truncated"])
   let rowsToCompare := (List.range n).filter fun i => isC states i || (isF states i && clean i)
   let pick (R : FRows) : FRows := rowsToCompare.map fun i => R.getD i []
   if !closeRows (canon (pick P)) (canon (pick Pseq)) then
